@@ -528,5 +528,39 @@ func jxRunGexf(c *Ctx) *Violation {
 	if jxOpt(t, 2) {
 		gr.Edges.Count = ne
 	}
+	// xsd:date carries a calendar date: a LastModified in any time zone and at
+	// any time of day must come back as the same calendar date (in its own
+	// location) - then the rest of the round trip is checked on the
+	// normalised value
+	if g.Meta != nil && !g.Meta.LastModified.IsZero() && jxOpt(t, 2) {
+		off := []int{10 * 3600, -5 * 3600, 14 * 3600, -12 * 3600, 5*3600 + 1800}[t.Choose(simrt.KValue, 5)]
+		y, m, d := g.Meta.LastModified.Date()
+		zoned := time.Date(y, m, d, t.Choose(simrt.KValue, 24), t.Choose(simrt.KValue, 60), 0, 0, time.FixedZone("", off))
+		g.Meta.LastModified = zoned
+		if v := c.Guard("Content/date", func() string { return zoned.String() }, func() *Violation {
+			b, err := jxGexf.marshal(g)
+			if err != nil {
+				return viol(jxGexf.sig("marshal"), "Marshal of a value with LastModified=%v fails: %v", zoned, err)
+			}
+			back := jxGexf.fresh()
+			if err := jxGexf.unmarshal(b, back); err != nil {
+				return viol(jxGexf.sig("roundtrip-unmarshal"), "Unmarshal rejects the output of Marshal: %v", err)
+			}
+			c.Case("control", true, hashBytes(b), 77)
+			c.Oracle("date-roundtrip")
+			bm := back.(*gexf12.Content).Meta
+			if bm == nil {
+				return viol(jxGexf.sig("date-roundtrip"), "Meta lost in the round trip")
+			}
+			y2, m2, d2 := bm.LastModified.Date()
+			if y2 != y || m2 != m || d2 != d {
+				return viol(jxGexf.sig("date-roundtrip"), "LastModified %v (calendar date %04d-%02d-%02d in its own location) comes back as %04d-%02d-%02d", zoned, y, m, d, y2, m2, d2)
+			}
+			return nil
+		}); v != nil {
+			return v
+		}
+		g.Meta.LastModified = time.Date(y, m, d, 0, 0, 0, 0, time.UTC)
+	}
 	return jxRun(c, jxGexf, g, nil)
 }
